@@ -338,7 +338,7 @@ class Norm:
         if n is None:
             return None
         r = n.get('ref')
-        if r and r['k'] in ('Local', 'Parm') and r['n'] in self.env:
+        if r and r['k'] in ('Local', 'Parm', 'Binding') and r['n'] in self.env:
             return self.env[r['n']]
         if n.get('tparm') in self.env:
             return self.env[n['tparm']]
